@@ -130,10 +130,20 @@ func snap(b *strings.Builder, v reflect.Value, depth int, seen map[uintptr]bool)
 			fmt.Fprintf(b, "bytes(%x)", v.Bytes())
 			return
 		}
-		fmt.Fprintf(b, "[len=%d cap>=len:", v.Len())
+		fmt.Fprintf(b, "[len=%d:", v.Len())
 		for i := 0; i < v.Len(); i++ {
 			snap(b, v.Index(i), depth+1, seen)
 			b.WriteString(",")
+		}
+		// the spare capacity is memory of the token too: a read-only operation
+		// that appends to a shared slice writes there
+		if v.Cap() > v.Len() && v.Cap()-v.Len() <= 64 {
+			full := v.Slice3(0, v.Cap(), v.Cap())
+			b.WriteString("|spare:")
+			for i := v.Len(); i < v.Cap(); i++ {
+				snap(b, full.Index(i), depth+1, seen)
+				b.WriteString(",")
+			}
 		}
 		b.WriteString("]")
 	case reflect.Array:
@@ -367,6 +377,10 @@ func drawChain(t *rapid.T) chain.Case {
 	mperm := rapid.Permutation([]string{"m0", "z", "b", "aa"}).Draw(t, "metaorder")
 	for _, k := range mperm[:nm] {
 		cs.Inv.Meta = append(cs.Inv.Meta, val.KV{K: k, V: val.Str("v" + k)})
+	}
+	for i := range cs.Links {
+		cs.Links[i].SpareCap = rapid.Bool().Draw(t, "sparecap")
+		cs.Links[i].Decoded = cs.Links[i].Decoded && !cs.Links[i].SpareCap
 	}
 	// policies over the new keys keep the chain conforming: none added; existing statements stay satisfied
 	_ = pol.Policy{}
